@@ -154,6 +154,18 @@ def audit(rep, sc, lf):
         n += 1
         fields.add(e["field"])
         f = e["field"]
+        if e.get("elem"):
+            if "error" in e:
+                rep.violation("audit:error:" + f, "round trip of a state with '%s' perturbed raised %s" % (f, e["error"]), e)
+            elif not (e["reported"] and e["reported_py"]):
+                rep.violation("audit:compare:" + f, "perturbing only '%s' (state %s): comparison reports %s (python %s), expected a difference"
+                              % (f, e["state"], e["reported"], e["reported_py"]), e)
+            elif e["changed"] != [e["array"]]:
+                rep.violation("audit:stream:" + f, "perturbing only '%s' changes stream fields %s" % (f, e["changed"]), e)
+            elif not (e["readback_ok"] and e["roundtrip_equal"] and e["roundtrip_stream_equal"]):
+                rep.violation("audit:roundtrip:" + f, "'%s' does not survive save/load (readback %s, equal %s, stream %s)"
+                              % (f, e["readback_ok"], e["roundtrip_equal"], e["roundtrip_stream_equal"]), e)
+            continue
         if e["off_desc"] != e["off_hdr"]:
             rep.violation("audit:offset:" + f, "descriptor '%s' (type %d) points at offset %d, the header puts that member at %d" % (f, e["type"], e["off_desc"], e["off_hdr"]), e)
             continue
